@@ -17,8 +17,8 @@ import vlib, mgr_common as mc
 def gen_cases(ctx, n):
     cases = []
     for i in range(n):
-        prof = ["mixed", "mixed", "assign", "dag", "flat"][i % 5]
-        c = mc.gen_history(ctx.rng, prof)
+        prof = ["mixed", "windows", "assign", "dag", "flat", "mixed", "windows"][i % 7]
+        c = mc.gen_history(ctx.rng, prof, nops=ctx.rng.randint(10, 24) if prof == "windows" else None)
         lv = mc.leaves_of(c)
         fol = [[ctx.rng.choice(lv), ctx.rng.randint(-9, 9)] for _ in range(3)]
         c["ops"].append(["freshcheck", lv, fol])
@@ -47,6 +47,11 @@ def oracle(cases, obs):
             if op[0] in ("set", "inplace") and o["err"] in ("KeyError", "RecursionError"):
                 fails.append((i, k, f"assignment raised {o['err']}"))
                 break
+            tr = o["oracle"].get("trace")
+            if tr and o["err"] is None and taint is None and any(x in tr for x in ("dup", "set_mismatch", "ran_untriggered")):
+                fails.append((i, k, "an assignment ran tasks other than those the surviving definitions trigger "
+                              f"(a removed or replaced task left a trace): {json.dumps(tr)[:400]}"))
+                break
             if op[0] == "verify" and o["err"] is not None:
                 fails.append((i, k, "verify() failed: " + str(o["err"])))
                 break
@@ -63,7 +68,8 @@ def oracle(cases, obs):
 
 def run(ctx):
     ctx.rule = ("random manager histories over nested dict/list/attribute containers (assign value/expression, in-place, unregister, "
-                "register function/knob tasks, load, refresh/verify/cleanup), each ended by a comparison with a fresh manager loaded with "
+                "register function/knob tasks, load, refresh/verify/cleanup; 2 in 7 with frozen windows incl. unbalanced freeze/unfreeze and "
+                "repeated assignments to the same few locations), each ended by a comparison with a fresh manager loaded with "
                 "the surviving definitions (queries + 3 follow-up assignments); non-trivial = a definition was replaced or removed; "
                 "distinct by op list")
     ctx.scale_if_changed()
